@@ -441,6 +441,7 @@ def run_task(task, tr):
             c1 = calls[:]
             lp, lq = obj.p(), obj.q()  # cached values used inside the objective
             snap1 = (list(t.pcs), list(t.denominators), list(t.domains))
+            bt1 = block_terms(dic, blocks, shape)
             # ---- second evaluation request, after the event the optimiser fires on the variational parameters
             for b in blocks:
                 for p_ in b['qparams']:
@@ -449,6 +450,7 @@ def run_task(task, tr):
             c2 = calls[len(c1):]
             lp2, lq2 = obj.p(), obj.q()
             snap2 = (t.pcs[len(snap1[0]):], t.denominators[len(snap1[1]):], t.domains[len(snap1[2]):])
+            bt2 = block_terms(dic, blocks, shape)
             # ---- back-to-back request without any event
             obj(**kw)
             c3 = calls[len(c1) + len(c2):]
@@ -474,7 +476,7 @@ def run_task(task, tr):
                 tr.inconc(f'{label}: unexpected sampler calls {[(c["cls"], c["meth"], c["sample_shape"]) for c in c1]} ({detail})')
             return
         ctx.update(t=t, blocks=blocks, L=L, dom=dom, Vh=Vh)
-        if not analyse(ctx, 'first request', r1, lp, lq, c1, snap1):
+        if not analyse(ctx, 'first request', r1, lp, lq, c1, snap1, bt1):
             return
         if any(v != 'refuted' for v in ctx.get('vac', [])):
             tr.notes.append(f'{label}: satisfiability of the hypotheses undecided ({ctx["vac"]})')
@@ -510,7 +512,7 @@ def run_task(task, tr):
                 return
         if not same_fn:
             # a tie (all weights are equal) was broken differently, e.g. in CUBO's max: prove the second request from scratch
-            if not analyse(ctx, 'second request', r2, lp2, lq2, c2, snap2):
+            if not analyse(ctx, 'second request', r2, lp2, lq2, c2, snap2, bt2):
                 return
         # back-to-back request
         tr.obligation(f'{label}: back-to-back request draws again', nontrivial=False)
@@ -524,7 +526,60 @@ def run_task(task, tr):
                 tr.inconc(f'{label}: back-to-back request did not draw symbolically but does concretely ({detail})')
 
 
-def analyse(ctx, which, r1, lp, lq, c1, snap):
+def block_terms(dic, blocks, shape):
+    """two-block models: per block, the cached log densities of its own model terms (prior, likelihood, Jacobian) and of
+    its variational factor, reduced to the sample shape -> [(P_b, Q_b)] (None for one block / unexpected shapes)"""
+    if len(blocks) < 2:
+        return None
+    out = []
+    try:
+        for b in blocks:
+            pre = b['pre']
+            tot = None
+            for key in ('prior', 'like', 'lam'):
+                m = dic.get(pre + key)
+                if m is None:
+                    continue
+                v = m().reshape(tuple(shape) + (-1,)).sum(-1)
+                tot = v if tot is None else tot + v
+            out.append((tot, dic[pre + 'q']().reshape(tuple(shape) + (-1,)).sum(-1)))
+    except Exception:
+        return None
+    return out
+
+
+def split_lemma(ctx, d, hyp0, i, entropy, target_i, blocks, bt, qcb):
+    """per-draw identity of a two-block model from one identity per block (each has a single non-linear posterior
+    relation) plus the re-association  whole == sum of blocks;  True when all three steps are proved"""
+    tr = ctx['tr']
+    Ts, hy, atoms = [], [], [target_i]
+    for b, (Pb, Qb), qc in zip(blocks, bt, qcb):
+        Lb = sid(b['logZ'])
+        if entropy:
+            T = int(Pb._ids.reshape(-1)[i])
+            g = d.eq(T, d.add(Lb, qc[i]))
+            atoms += [T, qc[i], Lb]
+        else:
+            T = int((Pb - Qb)._ids.reshape(-1)[i])
+            g = d.eq(T, Lb)
+            atoms += [T, Lb]
+        st, _, _ = prove(d, hyp0 + ground_axioms(d, [g]) + binary_logit_axioms(d, [g]), g, timeout=60.0, tr=tr,
+                         label=f'draw {i}: block {b["pre"]} identity', parallel=True)
+        if st != 'proved':
+            return False
+        Ts.append(T)
+        hy.append(g)
+    tot = 0
+    for T in Ts:
+        tot = d.add(tot, T)
+    gc = d.eq(target_i, tot)
+    st, _, _ = prove(d, [], gc, timeout=60.0, tr=tr, label=f'draw {i}: whole == sum of the blocks', parallel=True)
+    if st != 'proved':
+        return False
+    return gc, hy, atoms
+
+
+def analyse(ctx, which, r1, lp, lq, c1, snap, bt=None):
     """obligations L1-L4 for one evaluation request; False when something was reported"""
     tr, d, t, task, label, blocks, L = ctx['tr'], ctx['d'], ctx['t'], ctx['task'], ctx['label'], ctx['blocks'], ctx['L']
     fam, n, objective, oparams, ctor, shape, kw = unpack(task)
@@ -557,8 +612,10 @@ def analyse(ctx, which, r1, lp, lq, c1, snap):
     wflat = w._ids.reshape(-1).tolist()
     pflat = lp._ids.reshape(-1).tolist()
     lqc = None
+    qcb = []
     for b, c in zip(blocks, c1):  # one draw tensor per block, shape sample_shape + [1]
         term = b['logq'](c['z']).reshape(shape)
+        qcb.append(term._ids.reshape(-1).tolist())
         lqc = term if lqc is None else lqc + term
     qcflat = lqc._ids.reshape(-1).tolist()
     lemmas = []
@@ -570,8 +627,17 @@ def analyse(ctx, which, r1, lp, lq, c1, snap):
         else:
             g = d.eq(wflat[i], L)
             gl = f'{which}: draw {i}: log p(z, data) - log q(z) == log Z'
-        st = decide(ctx, gl, hyp0 + ground_axioms(d, [g]) + binary_logit_axioms(d, [g]), g, signature(objective, oparams, shape, 'weight-differs-from-logZ', override=bool(kw)),
-                    kind='weights')
+        st = None
+        if bt is not None:
+            sp = split_lemma(ctx, d, hyp0, i, entropy, pflat[i] if entropy else wflat[i], blocks, bt, qcb)
+            if sp:
+                gc, hy_b, ats = sp
+                am = {a_: t.fresh('blk', d.vals[a_]) for a_ in dict.fromkeys(ats) if d.ops[a_] != 'const'}
+                ab = abstract(d, am, [g, gc] + hy_b)
+                st, _, _ = prove(d, ab[1:], ab[0], timeout=30.0, tr=tr, label=gl, parallel=True)
+        if st != 'proved':
+            st = decide(ctx, gl, hyp0 + ground_axioms(d, [g]) + binary_logit_axioms(d, [g]), g,
+                        signature(objective, oparams, shape, 'weight-differs-from-logZ', override=bool(kw)), kind='weights')
         lemmas.append(g)
         failed |= st != 'proved'
         if i == 0 and st == 'proved':
@@ -657,6 +723,8 @@ def analyse(ctx, which, r1, lp, lq, c1, snap):
 
 def decide(ctx, glabel, hyps, goal, sig, kind):
     st, r, _ = prove(ctx['d'], hyps, goal, timeout=30.0, get_values=list(ctx['V'].values()), tr=ctx['tr'], label=glabel, parallel=True)
+    if st == 'unknown':  # a loaded machine: one retry with a long budget before anything is called undecided
+        st, r, _ = prove(ctx['d'], hyps, goal, timeout=240.0, get_values=list(ctx['V'].values()), tr=ctx['tr'], label=glabel, parallel=True)
     if st != 'proved':
         settle(ctx, glabel, st, r, sig, kind)
     return st
@@ -995,7 +1063,7 @@ def tasks_for(tier):
             ts.append((kind, 1, 'ELBO', {'entropy': True}, (2, 2)))  # the flag is ignored by the multi-sample branch
         for kind in KINDS:
             for n in (1, 2):
-                for o, op in OVERRIDE_OBJECTIVES + [('VR', {'alpha': 2.0}), ('CUBO', {'n': 3.0})]:
+                for o, op in OVERRIDE_OBJECTIVES:
                     for ctor, call in OVERRIDES_THOROUGH:
                         if not (op.get('entropy') and len(call) == 2) and (n == 1 or (ctor, call) in OVERRIDES_QUICK):
                             ts.append((kind, n, o, op, ctor, call))
